@@ -439,6 +439,20 @@ def check(case) -> Result:
                     res.fail(f"declaration-altered:{field}", f"{rel}: {d['name']} is declared with {field} {want!r} but shown with {got!r} ({r})")
             if sorted(d["attrs"]) != r["attrs"]:
                 res.fail("declaration-altered:attributes", f"{rel}: {d['name']} is declared with attributes {d['attrs']} but shown with {r['attrs']}")
+    # namelist pages: the Default column shows the initial value, or nothing
+    init_of = {n.lower(): v for n, v in case["inits"]}
+    for rel, (sk, raw) in A.items():
+        if not rel.startswith("namelist/"):
+            continue
+        for mrow in re.finditer(r'<tr id="variable-([^"]+)">(.*?)</tr>', raw, re.S):
+            cells = [_html.unescape(re.sub(r"<[^>]*>", "", c)).replace("\xa0", " ").strip()
+                     for c in re.findall(r"<td[^>]*>(.*?)</td>", mrow.group(2), re.S)]
+            if len(cells) < 3:
+                continue
+            nm = cells[0].lower()
+            want = init_of.get(nm)
+            if squash(cells[2]) != (squash(want) if want is not None else ""):
+                res.fail("namelist-default-altered", f"{rel}: {nm} has initial value {want!r} but the Default column shows {cells[2]!r}")
     # procedure headings: argument list, result name, binding label
     for h in case.get("heads", []):
         rel = f"proc/{h['name'].lower()}.html"
